@@ -147,6 +147,12 @@ def replay(o, tree):
         return deferred_c.replay_poly_nested(cfg, o.get("witness") or {}, tree)
     if cfg.get("kind") == "poly-selfref":
         return deferred_c.replay_poly_selfref(cfg, o.get("witness") or {}, tree)
+    if cfg.get("kind") == "wait-chain":
+        return deferred_c.replay_wait_chain(tree)
+    if cfg.get("kind") == "promise-pending":
+        return deferred_c.replay_promise_pending(tree)
+    if cfg.get("kind") == "poly-scalar":
+        return deferred_c.replay_poly_scalar(cfg, tree)
     if cfg.get("kind") == "poly-mul":
         return deferred_c.replay_poly_mul(cfg, o.get("witness") or {}, tree)
     return None
